@@ -57,6 +57,8 @@ class ScriptIO(ChannelIO):
         self.written = bytearray()
         self.delivered = 0
         self.chunks = []
+        self.latency = 0        # > 0: handing data over takes this long, and data arriving exactly at the end of the
+        #                         wait is still delivered (what select()-based transports do); oracle-only suites
 
     def write(self, buf):
         buf = bytes(buf)
@@ -75,7 +77,7 @@ class ScriptIO(ChannelIO):
             self.pend[0][1] = left
         else:
             self.pend.pop(0)
-        self.clock.t = max(self.clock.t, t)
+        self.clock.t = max(self.clock.t, t) + self.latency
         self.delivered += len(got)
         self.chunks.append(got)
         return got
@@ -92,7 +94,7 @@ class ScriptIO(ChannelIO):
             self.clock.t = now + max(tu, 0)
             raise TimeoutError()
         t = self.pend[0][0]
-        if t <= now or tu is None or t < now + tu:
+        if t <= now or tu is None or t < now + tu or (self.latency and t == now + tu):
             return self._deliver(n)
         self.clock.t = now + max(tu, 0)
         raise TimeoutError()
@@ -278,6 +280,7 @@ def run_script(case, channel_cls=Channel):
     """Execute the script on the real Channel.  Returns the observation mirrored by ChannelCorr.chan_model."""
     clock = VirtualClock(case.get("tick", 0))
     sio = ScriptIO([[t, bytes.fromhex(h)] for t, h in case["pieces"]], case.get("accept", []), clock)
+    sio.latency = case.get("latency", 0)
     saved_time = chmod.time
     chmod.time = clock
     try:
@@ -458,4 +461,6 @@ RE_POOL = [
     ["seq", ["cls", True, [[97, 98]]], ["chr", 36]],                                            # [^ab]\$
     ["seq", ["chr", 97], ["rep", ["chr", 98], 0, 2]],                                           # ab{0,2}
     ["alt", ["chr", 62], ["seq", ["chr", 62], ["chr", 62]]],                                    # >|>>
+    # (?:=|-)>_|#_  : the source starts with a group and has a top-level alternation (the end anchor must bind to both)
+    ["alt", ["seq", ["alt", ["chr", 61], ["chr", 45]], ["seq", ["chr", 62], ["chr", 32]]], ["seq", ["chr", 35], ["chr", 32]]],
 ]
